@@ -120,7 +120,8 @@ QUICK_REACTIONS = ["jpsi_gamma_pi0_pi0", "jpsi_pi0_pip_pim", "etac_lambda_lambda
                    "chic0_omega_omega", "chic2_gamma_gamma"]  # identical final-state particles WITH spin (different nodes / one node)
 
 
-THOROUGH_EXTRA = ["jpsi_gamma_pi0_pi0_f2", "d0_k_pi_pi0", "jpsi_gamma_p_pbar", "jpsi_full_p_pbar"]
+THOROUGH_EXTRA = ["jpsi_gamma_pi0_pi0_f2", "d0_k_pi_pi0", "jpsi_gamma_p_pbar", "jpsi_full_p_pbar",
+                  "psi2s_gamma_gamma_jpsi"]  # (three spin-1 final states: the DPD-aligned models are large, thorough tier only)
 
 
 def config_space(tier: str, reactions: list[str] | None = None) -> list[Config]:
@@ -129,6 +130,8 @@ def config_space(tier: str, reactions: list[str] | None = None) -> list[Config]:
     names = reactions or (QUICK_REACTIONS + (THOROUGH_EXTRA if tier == "thorough" else []))
     for nm in names:
         aligns = ["none", "axis"] + (["dpd1", "dpd2", "dpd3"] if n_final(nm) == 3 else [])
+        if nm == "psi2s_gamma_gamma_jpsi":
+            aligns = ["none"]  # three spin-1 final states: an aligned model takes 40-200 s to formulate and adds nothing about identical particles
         forms = ["helicity", "canonical-helicity"]
         if tier == "thorough":
             for f, a, s, sc, hc, d in itertools.product(forms, aligns, ["none", "some", "all"], [False, True], [False, True], ["none", "bwff"]):
